@@ -9,7 +9,7 @@
  "unwindset": ["typecompatible.0:1", "typecompatible:3", "mkbinaryexpr:2"],
  "variants": {"A_TMUL": ["-DU_ARITH", "-DV_OP=TMUL"], "A_TDIV": ["-DU_ARITH", "-DV_OP=TDIV"], "A_TMOD": ["-DU_ARITH", "-DV_OP=TMOD"], "A_TADD": ["-DU_ARITH", "-DV_OP=TADD"], "A_TSUB": ["-DU_ARITH", "-DV_OP=TSUB"], "A_TSHL": ["-DU_ARITH", "-DV_OP=TSHL"], "A_TSHR": ["-DU_ARITH", "-DV_OP=TSHR"], "A_TLESS": ["-DU_ARITH", "-DV_OP=TLESS"], "A_TGREATER": ["-DU_ARITH", "-DV_OP=TGREATER"], "A_TLEQ": ["-DU_ARITH", "-DV_OP=TLEQ"], "A_TGEQ": ["-DU_ARITH", "-DV_OP=TGEQ"], "A_TEQL": ["-DU_ARITH", "-DV_OP=TEQL"], "A_TNEQ": ["-DU_ARITH", "-DV_OP=TNEQ"], "A_TBAND": ["-DU_ARITH", "-DV_OP=TBAND"], "A_TBOR": ["-DU_ARITH", "-DV_OP=TBOR"], "A_TXOR": ["-DU_ARITH", "-DV_OP=TXOR"], "P_TADD": ["-DV_OP=TADD"], "P_TSUB": ["-DV_OP=TSUB"], "P_TLESS": ["-DV_OP=TLESS"], "P_TGREATER": ["-DV_OP=TGREATER"], "P_TLEQ": ["-DV_OP=TLEQ"], "P_TGEQ": ["-DV_OP=TGEQ"], "P_TEQL": ["-DV_OP=TEQL"], "P_TNEQ": ["-DV_OP=TNEQ"], "P_TLAND": ["-DV_OP=TLAND"], "P_TLOR": ["-DV_OP=TLOR"]},
  "canary_variant": "P_TADD",
- "link_repo": ["type.c"],
+ "link_repo": ["type.c"], "cflags": ["-DVERIF_OWN_XMALLOC"],
  "timeout": 300,
  "expects": ["assertion_verif", "assertion_repo"],
  "assumes": ["eval() is the identity: operands are already folded, a constant operand has kind EXPRCONST (folding itself: EVAL.* units)",
@@ -26,33 +26,32 @@
 #include "mkbinary_common.h"
 
 #define SC        g_signedchar
-/* oracle values, computed once by the harness (no function calls inside PRE/POST: CBMC 6.11 mis-evaluates calls nested
-   in || / && chains of an assertion) */
+/* oracle values, computed once by the harness */
 int g_common, g_proml, g_promr;
 #define COMMON    g_common      /* == spec_common(LC, g_lw, RC, g_rw, SC)  6.3.1.8 */
 #define PROM_L    g_proml       /* == spec_promote(LC, g_lw, SC)           6.3.1.1p2 */
 #define PROM_R    g_promr
-#define RL        (HRET->u.binary.l)
-#define RR        (HRET->u.binary.r)
+#define RL        g_xl          /* operands of the returned node (post-state observers, mkbinary_common.h) */
+#define RR        g_xr
 
 /* x is `orig` converted to the arithmetic type with code c: either orig itself, when its type already is that type,
    or a conversion node (EXPRCAST) to that type whose operand is orig */
 #define CONV(x, orig, c) \
-	(((x) == (orig) && TYIS((orig)->type, c)) || \
-	 ((x) != (orig) && (x)->kind == EXPRCAST && (x)->base == (orig) && TYIS((x)->type, c)))
+	((x) != 0 && (((x) == (orig) && TYIS((orig)->type, c)) || \
+	 ((x) != (orig) && (x)->kind == EXPRCAST && (x)->base == (orig) && TYIS((x)->type, c))))
 /* 64-bit unsigned / ptrdiff_t (LP64: long) */
-#define U64CODE(c) ((c) == AT_ULONG || (c) == AT_ULLONG)
 #define CONVU64(x, orig) (CONV(x, orig, AT_ULONG) || CONV(x, orig, AT_ULLONG))
 #define ISU64T(t) (TYIS(t, AT_ULONG) || TYIS(t, AT_ULLONG))
-#define ISCONST(x, v) ((x)->kind == EXPRCONST && (x)->u.constant.u == (v))
-/* x is  idx * sz  computed in a 64-bit unsigned type (either operand order) */
-#define SCALED(x, idx, sz) \
-	((x)->kind == EXPRBINARY && (x)->op == TMUL && ISU64T((x)->type) && \
-	 ((CONVU64((x)->u.binary.l, idx) && ISCONST((x)->u.binary.r, sz) && ISU64T((x)->u.binary.r->type)) || \
-	  (CONVU64((x)->u.binary.r, idx) && ISCONST((x)->u.binary.l, sz) && ISU64T((x)->u.binary.l->type))))
+#define ISCONST(x, v) ((x) != 0 && (x)->kind == EXPRCONST && (x)->u.constant.u == (v))
+/* x (operands xl, xr) is  idx * sz  computed in a 64-bit unsigned type (either operand order) */
+#define SCALED(x, xl, xr, idx, sz) \
+	((x) != 0 && (x)->kind == EXPRBINARY && (x)->op == TMUL && ISU64T((x)->type) && \
+	 ((CONVU64(xl, idx) && ISCONST(xr, sz) && ISU64T((xr)->type)) || \
+	  (CONVU64(xr, idx) && ISCONST(xl, sz) && ISU64T((xl)->type))))
 #define SAMEPTR(a, b) ((a)->kind == TYPEPOINTER && (a)->base == (b)->base && (a)->qual == (b)->qual)
 /* pointer operand of a comparison: itself, or converted to the other operand's pointer type (void * / null pointer constant) */
-#define PCONV(x, orig, other) ((x) == (orig) || ((x)->kind == EXPRCAST && (x)->base == (orig) && SAMEPTR((x)->type, (other)->type)))
+#define PCONV(x, orig, other) ((x) != 0 && ((x) == (orig) || ((x)->kind == EXPRCAST && (x)->base == (orig) && SAMEPTR((x)->type, (other)->type))))
+#define ISCASTTO(x, orig, t) ((x) != 0 && (x)->kind == EXPRCAST && (x)->type == (t) && (x)->base == (orig))
 
 #define OP_ARITH  (OP_MULDIV || op == TMOD || OP_BIT || ((op == TADD || op == TSUB) && BOTH_ARITH))
 #define OP_PADD   (op == TADD && !BOTH_ARITH)
@@ -100,13 +99,13 @@ int g_common, g_proml, g_promr;
 	X(IMP(OP_PADD || OP_PSUBI, SAMEPTR(HRET->type, P_OP->type))) \
 	X(IMP(OP_PADD || OP_PSUBI, HRET->op == op)) \
 	X(IMP(OP_PADD || OP_PSUBI, RL == P_OP)) \
-	X(IMP(OP_PADD || OP_PSUBI, SCALED(RR, I_OP, BS_SIZE(P_BS)))) \
+	X(IMP(OP_PADD || OP_PSUBI, SCALED(RR, g_xrl, g_xrr, I_OP, BS_SIZE(P_BS)))) \
 	/* 6.5.6p9: pointer - pointer has type ptrdiff_t (long): byte difference divided by the element size */ \
 	X(IMP(OP_PSUBP, HRET->type == &typelong)) \
 	X(IMP(OP_PSUBP, HRET->op == TDIV)) \
-	X(IMP(OP_PSUBP, RL->kind == EXPRBINARY && RL->op == TSUB && RL->type == &typelong)) \
-	X(IMP(OP_PSUBP, RL->u.binary.l->kind == EXPRCAST && RL->u.binary.l->type == &typelong && RL->u.binary.l->base == g_l)) \
-	X(IMP(OP_PSUBP, RL->u.binary.r->kind == EXPRCAST && RL->u.binary.r->type == &typelong && RL->u.binary.r->base == g_r)) \
+	X(IMP(OP_PSUBP, RL != 0 && RL->kind == EXPRBINARY && RL->op == TSUB && RL->type == &typelong)) \
+	X(IMP(OP_PSUBP, ISCASTTO(g_xll, g_l, &typelong))) \
+	X(IMP(OP_PSUBP, ISCASTTO(g_xlr, g_r, &typelong))) \
 	X(IMP(OP_PSUBP, ISCONST(RR, BS_SIZE(g_lbs)) && RR->type == &typelong)) \
 	POST_FRAME(X) \
 	CANARY(X, !(op == TADD && g_lts == AT_INT && g_rts == TS_PTR && g_rbs == BS_S2))
@@ -139,5 +138,5 @@ harness(void)
 	g_promr = R_ARITH ? spec_promote(RC, g_rw, SC) : -1;
 	g_compat = spec_bscompat(g_lbs, g_rbs);
 	g_no_error = 1;     /* a valid expression must be typed, not diagnosed */
-	HCALLR(struct expr *, PRE, POST, mkbinaryexpr(loc, op, l, r));
+	HCALLR(struct expr *, PRE, POST, mkb_observe(mkbinaryexpr(loc, op, l, r)));
 }
